@@ -303,8 +303,8 @@ Section Negotiate.
     | None => Identity
     end.
 
-  (** [get_gzip] / [get_br] / [get_zstd] run by one task at a time:
-      check the cell; compute; check again and write; read the cell *)
+  (** [get_gzip] / [get_br] / [get_zstd] ([OnceCell::get_or_init]) run by one task at a time:
+      the cell's value if it has one; else compute, store, read the cell *)
   Definition get_alg (a : alg) (level : N) (c : cresp) : bytes * cresp :=
     match cell_get a c with
     | Some b => (b, c)
@@ -793,9 +793,27 @@ Definition run_stress (x : xval) : xval :=
   | _ => bad_input
   end.
 
+(** "neg.stream": (L (L [accept-encoding]) (N announced-length?)) -> (L (N status) (N future kept) (L [content-encoding]) (N body length))
+    a response that carries a future (a streaming response: compression is forced off for it) with 18 bytes of body:
+    [handle_cache] never exchanges it for a 406 — its future writes the rest of the body.  With an announced length
+    [clone_preferred] is not consulted at all; without, a forbidden identity falls back to the identity response as
+    the handler made it. *)
+Definition run_stream (x : xval) : xval :=
+  match x with
+  | XL [xae; xw] =>
+      match d_option d_B xae, d_bool xw with
+      | Some ae, Some w =>
+          let refused := disable_identity (header_values parse_q_dec ae) in
+          XL [XN 200; XN 1; x_option XB (if w || refused then None else Some s_identity); XN 18]
+      | _, _ => bad_input
+      end
+  | _ => bad_input
+  end.
+
 Definition negotiate_table : list (bytes * (xval -> xval)) :=
   [ (B "neg.list_header", run_list_header);
     (B "neg.mime", run_mime);
     (B "neg.pipe", run_pipe_neg);
     (B "neg.spec", run_spec_neg);
-    (B "neg.stress", run_stress) ].
+    (B "neg.stress", run_stress);
+    (B "neg.stream", run_stream) ].
